@@ -149,6 +149,10 @@ pub struct Cfg {
     /// register the second relationship `OwnedBy` (replicated; synchronized with `sync`) and generate `SetOwner` / `DelOwner`
     #[serde(default)]
     pub owners: bool,
+    /// filler entities spawned in the server world (and a different number in every client world) before anything else:
+    /// entity indices on both sides of the points where their wire encoding grows (64, 8192)
+    #[serde(default)]
+    pub entity_offset: u16,
 }
 
 impl Default for Cfg {
@@ -179,6 +183,7 @@ impl Default for Cfg {
             connect_all: false,
             bundle: false,
             owners: false,
+            entity_offset: 0,
         }
     }
 }
